@@ -1089,6 +1089,13 @@ class LangServer:
         if def_obj.FQSN.count(":") > 2:
             if def_obj.parent.get_type() == CLASS_TYPE_ID:
                 type_mem = True
+            elif (
+                def_obj.parent.is_external_int()
+                and def_obj.parent.FQSN.count(":") <= 2
+            ):
+                # A procedure declared by an interface body of a module (or
+                # other program unit) is as visible as a module procedure
+                pass
             else:
                 restrict_file = def_obj.file_ast.file
                 if restrict_file is None:
@@ -1236,6 +1243,13 @@ class LangServer:
         if def_obj.FQSN.count(":") > 2:
             if def_obj.parent.get_type() == CLASS_TYPE_ID:
                 type_mem = True
+            elif (
+                def_obj.parent.is_external_int()
+                and def_obj.parent.FQSN.count(":") <= 2
+            ):
+                # A procedure declared by an interface body of a module (or
+                # other program unit) is as visible as a module procedure
+                pass
             else:
                 restrict_file = def_obj.file_ast.file
                 if restrict_file is None:
